@@ -348,5 +348,5 @@ Lemma c_burst_req_fits tn fn pwr burst o : c_burst_req tn fn pwr burst = TxSent 
 Proof.
   unfold c_burst_req. destruct gen_trxif_consts as [_ [-> _]].
   destruct (6 + Z.of_nat (length burst) >? 512) eqn:E; [discriminate|]. intros H. injection H as <-.
-  unfold be32. rewrite !app_length, map_length. cbn [length]. lia.
+  unfold be32. repeat (rewrite app_length || rewrite map_length || cbn [length app]). lia.
 Qed.
